@@ -329,7 +329,9 @@ theorem deqBody_run (c : Cfg) (hc : c.helpTail = true) (fuel : Nat) (env : Env) 
     (ls : LState) (o : Out) (h1 : env.vars "q" = some (.ptr L.q)) (hP : Pinv L fv mbv env.priv)
     (hpar : ∀ l a, L.addr l = some a → ∃ d, L.addr (.field l "parent") = some d)
     (hwt : ∀ v ∈ inp, Typed L v) (hpc : ls.pc = .dLdH)
-    (hok : exec fuel deqBody env inp = .ok o) : BodyPost L c fv mbv ls env inp o := by
+    (hok : exec fuel deqBody env inp = .ok o)
+    (hno : ∀ l mo, Event.ld (.field l "next") (.int 0) mo ∈ o.events → isPar l = true) :
+    BodyPost L c fv mbv ls env inp o := by
   obtain ⟨hP1, hP2, hP3, hP4⟩ := hP
   rw [show deqBody = Stmt.seq _ (.seq _ (.seq _ (.seq _ (.seq _ (.seq _ lfqTail))))) from rfl] at hok
   rcases inp with _ | ⟨hv, r⟩
@@ -351,11 +353,174 @@ theorem deqBody_run (c : Cfg) (hc : c.helpTail = true) (fuel : Nat) (env : Env) 
           by_cases hd : isPar hl = true
           · body_exec
             subst hok
-            simp [BodyPost, absDeq, absEv, dec_ptr, dec_int0, ha, lrun, lstep, hpc, Pinv, hP3, hP4, hd]
-            trace_state
-            sorry
-          · sorry
+            simp +contextual [BodyPost, absDeq, absEv, dec_ptr, dec_int0, ha, lrun, lstep, hpc, Pinv, hP3, hP4, hd]
+            exact ⟨hP1, hP2⟩
+          · exfalso
+            rw [WfcqR.exec_split fuel 4] at hok
+            simp [WfcqR.initSeq, WfcqR.seqRes, block, exec, eval, evalArgs, execPrim, bindParams, asLoc, bind, Except.bind,
+              Env.setVar, Env.setPriv, setDst, h1] at hok
+            split at hok
+            · simp at hok
+            · simp at hok
+              subst hok
+              exact hd (hno hl 1 (by simp))
         · have hnx0 : nx ≠ 0 := fun e => hn0 (dec_eq_zero L (e ▸ hnx))
-          sorry
+          have hnt : nv.truthy = true := by
+            rcases typed_cases L (hwt nv (by simp)) with rfl | ⟨l, _, rfl, _⟩ <;> simp_all [Val.truthy]
+          have ht0 : (Val.int 0).truthy = false := rfl
+          have ht1 : (Val.int 1).truthy = true := rfl
+          simp [block, exec, eval, evalArgs, execPrim, bindParams, asLoc, bind, Except.bind, Env.setVar, Env.setPriv,
+            setDst, evalBin, evalUn, boolV, h1, hp1, hn0, hnt, ht0, ht1] at hok
+          generalize hEt : exec fuel lfqTail _ _ = rt at hok
+          cases rt with
+          | error e => simp at hok
+          | ok ot =>
+            have hT := lfqTail_run L c hc fuel _ r hl a nx nv fv
+              { ls with hd := a, nx := nx, pc := .dLdT } ot (by simp [h1]) (by simp) (by simp) ha hnx (by exact hp1)
+              (by exact fun hd => ⟨hP2 hl a ha hd, hP3⟩) (fun v hv => hwt v (by simp [hv])) rfl rfl rfl hEt
+            obtain ⟨ls', hrun, hpriv, hsub, hfin⟩ := hT
+            simp at hok
+            subst hok
+            refine ⟨ls', ?_, by simp [hpriv, Pinv, hP3, hP4]; exact ⟨hP1, hP2⟩, fun v hv => by simp [hsub v hv], ?_⟩
+            · have hns : ¬(nx = 0 ∧ isPar hl = false ∧ DSt.none = DSt.none) := by simp [hnx0]
+              simp [absDeq, absEv, dec_ptr, ha, hnx, hns, lrun, lstep, hpc, afterNextPc, hc, hnx0, hrun]
+            · rcases hfin with ⟨h, _⟩ | ⟨h, hp, hq⟩ | ⟨h, hp⟩
+              · exact Or.inl (Or.inl h)
+              · exact Or.inr (Or.inl ⟨h, hp, by simpa using hq⟩)
+              · exact Or.inr (Or.inr (Or.inr ⟨hl, h, hp⟩))
+
+/-- no load of a `next` word of a non-dummy node returned NULL (the dequeuer never needed `enqueue_dummy`) -/
+def NoAlloc (evs : List Event) : Prop :=
+  ∀ l mo, Event.ld (.field l "next") (.int 0) mo ∈ evs → isPar l = true
+
+theorem absDeq_append (a b : List Event) (h : NoAlloc a) :
+    absDeq L .none (a ++ b) = absDeq L .none a ++ absDeq L .none b := by
+  induction a with
+  | nil => rfl
+  | cons e es ih =>
+    have ih' := ih (fun l mo hm => h l mo (by simp [hm]))
+    cases e with
+    | ld l v mo =>
+      simp only [List.cons_append, absDeq]
+      split
+      · simp [ih']
+      · split
+        · rename_i l' f _
+          split
+          · rename_i hf
+            subst hf
+            split
+            · rename_i a x ha hx
+              split
+              · rename_i hcond
+                exfalso
+                have hv : v = .int 0 := dec_eq_zero L (hcond.1 ▸ hx)
+                subst hv
+                have := h l' mo (by simp)
+                simp [this] at hcond
+              · simp [ih']
+            · simp [ih']
+          · simp [ih']
+        · simp [ih']
+    | ext name args r =>
+      simp only [List.cons_append, absDeq]
+      split <;> simp [ih']
+    | cas l e' n old m1 m2 =>
+      simp only [List.cons_append, absDeq]
+      split
+      · split <;> simp [ih']
+      · simp [ih']
+    | st l v mo => simp [absDeq, ih']
+    | xchg l n o mo => simp [absDeq, ih']
+    | rmw op l a r mo => simp [absDeq, ih']
+    | fence p => simp [absDeq, ih']
+
+theorem iterate_prefix (body : Env → List Val → Except String Out) (n : Nat) :
+    ∀ (env : Env) (inp : List Val) (acc : List Event) (out : Out),
+      iterate body n env inp acc = .ok out → ∃ evs, out.events = acc ++ evs := by
+  induction n with
+  | zero => intro env inp acc out h; simp only [iterate, Except.ok.injEq] at h; subst h; exact ⟨[], by simp⟩
+  | succ n ih =>
+    intro env inp acc out h
+    simp only [iterate, bind, Except.bind] at h
+    cases hb : body env inp with
+    | error e => simp [hb] at h
+    | ok o =>
+      simp only [hb] at h
+      cases hctl : o.ctl <;> simp only [hctl] at h
+      case normal | cont =>
+        obtain ⟨evs, he⟩ := ih _ _ _ _ h
+        exact ⟨o.events ++ evs, by simp [he]⟩
+      all_goals (simp only [Except.ok.injEq] at h; subst h; exact ⟨o.events, rfl⟩)
+
+/-- how a dequeue run (from L2's `dLdH`) ends -/
+def DeqPost (c : Cfg) (ls : LState) (out : Out) (evs : List Event) : Prop :=
+  ∃ ls', lrun c ls (absDeq L .none evs) = some ls' ∧
+    ((out.ctl = .blocked ∨ out.ctl = .fuel) ∨ (out.ctl = .ret (some (.int 0)) ∧ ls'.pc = .idle) ∨
+     (∃ hl, out.ctl = .ret (some (.ptr hl)) ∧ ls'.pc = .idle))
+
+theorem deq_loop (c : Cfg) (hc : c.helpTail = true) (fuel : Nat) (fv : Val) (mbv : Int)
+    (hpar : ∀ l a, L.addr l = some a → ∃ d, L.addr (.field l "parent") = some d) (iters : Nat) :
+    ∀ (env : Env) (inp : List Val) (acc : List Event) (ls : LState) (out : Out),
+      env.vars "q" = some (.ptr L.q) → Pinv L fv mbv env.priv → (∀ v ∈ inp, Typed L v) → ls.pc = .dLdH →
+      iterate (fun e i => exec fuel deqBody e i) iters env inp acc = .ok out → NoAlloc out.events →
+      ∃ evs, out.events = acc ++ evs ∧ DeqPost L c ls out evs := by
+  induction iters with
+  | zero =>
+    intro env inp acc ls out h1 hP hwt hpc hok hno
+    simp only [iterate, Except.ok.injEq] at hok
+    subst hok
+    exact ⟨[], by simp, ls, rfl, Or.inl (Or.inr rfl)⟩
+  | succ iters ih =>
+    intro env inp acc ls out h1 hP hwt hpc hok hno
+    simp only [iterate, bind, Except.bind] at hok
+    cases hb : exec fuel deqBody env inp with
+    | error e => simp [hb] at hok
+    | ok o =>
+      simp only [hb] at hok
+      have hcases : (o.ctl = .cont ∧ iterate (fun e i => exec fuel deqBody e i) iters o.env o.inp (acc ++ o.events) = .ok out) ∨
+          (o.ctl ≠ .cont ∧ o.ctl ≠ .normal ∧ out.events = acc ++ o.events ∧
+            out.ctl = (if o.ctl = .brk then .normal else o.ctl)) ∨
+          (o.ctl = .normal ∧ iterate (fun e i => exec fuel deqBody e i) iters o.env o.inp (acc ++ o.events) = .ok out) := by
+        cases hctl : o.ctl <;> simp [hctl] at hok ⊢ <;> first | exact hok | (subst hok; simp)
+      have hsubev : ∀ e ∈ o.events, e ∈ out.events := by
+        intro e he
+        rcases hcases with ⟨_, hit⟩ | ⟨_, _, hev, _⟩ | ⟨_, hit⟩
+        · obtain ⟨evs, h⟩ := iterate_prefix _ _ _ _ _ _ hit; simp [h, he]
+        · simp [hev, he]
+        · obtain ⟨evs, h⟩ := iterate_prefix _ _ _ _ _ _ hit; simp [h, he]
+      have hB := deqBody_run L c hc fuel env inp fv mbv ls o h1 hP hpar hwt hpc hb
+        (fun l mo hm => hno l mo (hsubev _ hm))
+      obtain ⟨ls1, hrun1, hP', hsub, hfin⟩ := hB
+      rcases hcases with ⟨hctl, hit⟩ | ⟨hnc, hnn, hev, hoc⟩ | ⟨hctl, hit⟩
+      · rcases hfin with (h | h) | ⟨_, hp1, hq⟩ | ⟨h, _⟩ | ⟨_, h, _⟩ <;> try (simp [hctl] at h)
+        obtain ⟨evs', hevs, ls', hrun, hfin'⟩ := ih o.env o.inp (acc ++ o.events) ls1 out (hq ▸ h1) hP'
+          (fun v hv => hwt v (hsub v hv)) hp1 hit hno
+        refine ⟨o.events ++ evs', by simp [hevs], ls', ?_, hfin'⟩
+        rw [absDeq_append L _ _ (fun l mo hm => hno l mo (hsubev _ hm)), lrun_append, hrun1]
+        exact hrun
+      · refine ⟨o.events, hev, ls1, hrun1, ?_⟩
+        rcases hfin with (h | h) | ⟨h, _⟩ | ⟨h, hp⟩ | ⟨hl, h, hp⟩
+        · exact Or.inl (Or.inl (by simp [hoc, h]))
+        · exact Or.inl (Or.inr (by simp [hoc, h]))
+        · exact absurd h hnc
+        · exact Or.inr (Or.inl ⟨by simp [hoc, h], hp⟩)
+        · exact Or.inr (Or.inr ⟨hl, by simp [hoc, h], hp⟩)
+      · rcases hfin with (h | h) | ⟨h, _⟩ | ⟨h, _⟩ | ⟨_, h, _⟩ <;> simp [hctl] at h
+
+/-- **`_cds_lfq_dequeue_rcu(q)` – PARTIAL** (the `enqueue_dummy` path is excluded by `NoAlloc`; "never fails" is not
+proved: the statement is about the runs that do not fail).  From L2's `dLdH` (after `deqCall`), `helpTail = true` (the
+current code), every loop budget, oracle values NULL or node pointers: the labels `absDeq` extracts from the events
+are accepted by the local automaton, and a returned node / NULL is reached at L2's `idle`. -/
+theorem dequeue_refines_partial_env (c : Cfg) (hc : c.helpTail = true) (fuel : Nat) (env : Env) (inp : List Val)
+    (fv : Val) (mbv : Int) (ls : LState) (out : Out) (h1 : env.vars "q" = some (.ptr L.q))
+    (hP : Pinv L fv mbv env.priv) (hpar : ∀ l a, L.addr l = some a → ∃ d, L.addr (.field l "parent") = some d)
+    (hwt : ∀ v ∈ inp, Typed L v) (hpc : ls.pc = .dLdH)
+    (hok : exec fuel Gen.Src.«_cds_lfq_dequeue_rcu» env inp = .ok out) (hno : NoAlloc out.events) :
+    DeqPost L c ls out out.events := by
+  rw [show Gen.Src.«_cds_lfq_dequeue_rcu» = .loop deqBody from rfl] at hok
+  simp only [exec] at hok
+  obtain ⟨evs, hevs, hpost⟩ := deq_loop L c hc fuel fv mbv hpar fuel env inp [] ls out h1 hP hwt hpc hok hno
+  simpa [hevs] using hpost
 
 end UrcuVerif.Src.Queue.LfqR
